@@ -6,7 +6,7 @@ from lib import monitor, sandbox
 
 FORMULAS = {
     'C01': ['HostSurvives', 'SendFailResolves', 'LossReported', 'LossSparesOthers'],
-    'C04': ['HostSurvives', 'LossReported', 'LossSparesOthers', 'IdleLossHarmless'],
+    'C04': ['HostSurvives', 'LossReported', 'LossSparesOthers', 'IdleLossHarmless', 'RecycleHarmless'],
     'C05': ['HostSurvives', 'HardLimit', 'MapNeverTimedOut'],
     'C06': ['HostSurvives', 'SoftOnceInTask'],
     'C09': ['HostSurvives', 'RecycleHarmless', 'LossSparesOthers', 'IdleLossHarmless', 'DiscardNoHoldUp'],
@@ -35,6 +35,9 @@ def scenarios(pid, thorough):
         if pid == 'C04':
             for k in (kinds if thorough else ['apply', 'imap']):
                 S.append(dict(kind='idleloss', job=k))
+            # converse clause: workers that leave after finishing their work cause no failure
+            S.append(dict(kind='recycle', quota=1, job='map', slow=True, items=12, chunk=3))
+            S.append(dict(kind='recycle', quota=2, job='imapu', slow=True, items=8))
     if pid == 'C01':
         S.append(dict(kind='sendfail'))
     if pid == 'C10':
@@ -63,6 +66,10 @@ def scenarios(pid, thorough):
                 S.append(dict(kind='recycle', quota=q, job=job))
         for job in (('map', 'imap', 'imapu', 'apply') if thorough else ('map', 'imapu')):
             S.append(dict(kind='recycle', quota=2, job=job, slow=True, items=8))
+        # parts of several items (chunksize > 1): a part's worker is forgotten item by item
+        S.append(dict(kind='recycle', quota=1, job='map', slow=True, items=12, chunk=3))
+        if thorough:
+            S.append(dict(kind='recycle', quota=2, job='map', slow=True, items=16, chunk=2))
         for job in (('map', 'imap', 'imapu') if thorough else ('imap',)):
             S.append(dict(kind='idleloss', job=job))
         S.append(dict(kind='loss', procs=2, job='apply', how=['signal', 9]))
